@@ -17,16 +17,15 @@ Record lim := { l_rate : Q; l_max : Q; l_tokens : Q; l_upd : Q; l_deliv : Z }.
 Definition lim_init (rate now : Q) : lim :=
   {| l_rate := rate; l_max := qmax rate 1; l_tokens := rate; l_upd := now; l_deliv := 0 |}.
 
-(* _add_new_tokens at clock reading now; ZeroDivisionError when the clock did not advance *)
+(* _add_new_tokens at clock reading now (after the fix: a clock that did not advance adds nothing; the pinned code divided by the
+   elapsed time for its statistics and raised ZeroDivisionError) *)
 Definition add_new_tokens (s : lim) (now : Q) : res lim :=
   let t := now - l_upd s in
-  if Qeq_bool t 0 then Err EXN_ZeroDivisionError
-  else
-    let nw := t * l_rate s in
-    if qlt 1 nw then
-      Ok {| l_rate := l_rate s; l_max := l_max s; l_tokens := qmin (l_tokens s + nw) (l_max s);
-            l_upd := now; l_deliv := 0 |}
-    else Ok s.
+  let nw := t * l_rate s in
+  if qlt 1 nw then
+    Ok {| l_rate := l_rate s; l_max := l_max s; l_tokens := qmin (l_tokens s + nw) (l_max s);
+          l_upd := now; l_deliv := 0 |}
+  else Ok s.
 
 (* one clock reading inside limit(): add tokens, then either pass (true) or sleep (false) *)
 Definition lim_step (s : lim) (now : Q) : res (lim * bool) :=
